@@ -65,7 +65,7 @@ pub fn register(l: &mut Vec<Obl>) {
             r
         });
     obl!(l; "c09_wcag_contrast", "C09", Tier::Quick,
-        "WCAG 2.1 relative contrast of linear RGB colours in [0,1]^3 is (Lmax + 0.05)/(Lmin + 0.05) with L = 0.2126 R + 0.7152 G + 0.0722 B (within 0.05 of the ratio: palette uses the sRGB matrix row 0.2126729/0.7151522/0.0721750, of which the WCAG constants are the 4-digit rounding), symmetric, in [1, 21], and each threshold predicate holds exactly when the ratio reaches its constant (4.5, 3, 7, 4.5, 3)",
+        "WCAG 2.1 relative contrast of linear RGB colours in [0,1]^3 is (Lmax + 0.05)/(Lmin + 0.05) with L = 0.2126 R + 0.7152 G + 0.0722 B (within 0.05 of the ratio: palette uses the sRGB matrix row 0.2126729/0.7151522/0.0721750, of which the WCAG constants are the 4-digit rounding), symmetric, in [1, 21] (1e-9: the relative luminance is clamped to [0,1]), and each threshold predicate holds exactly when the ratio reaches its constant (4.5, 3, 7, 4.5, 3)",
         ["Wcag21RelativeContrast::relative_contrast", "has_min_contrast_text", "has_min_contrast_large_text", "has_enhanced_contrast_text", "has_enhanced_contrast_large_text", "has_min_contrast_graphics", "relative_luminance"],
         [var("r1", 0.0, 1.0), var("g1", 0.0, 1.0), var("b1", 0.0, 1.0), var("r2", 0.0, 1.0), var("g2", 0.0, 1.0), var("b2", 0.0, 1.0)];
         |v| {
@@ -77,7 +77,7 @@ pub fn register(l: &mut Vec<Obl>) {
             let c = x.relative_contrast(y);
             r.goal("ratio", c.close(expect, 0.05));
             r.goal("symmetric", c.close(y.relative_contrast(x), 1e-9));
-            r.goal("range", c.within_tol(1.0, 21.0, 0.05));
+            r.goal("range", c.within_tol(1.0, 21.0, 1e-9));
             r
         });
     obl!(l; "c09_ciede2000_laws", "C09", Tier::Thorough,
